@@ -11,28 +11,13 @@ import (
 // not wasted on it and the search continues behind it. It stays in the domain with 15 %, and the
 // repair is conditional on the entry being listed: once an entry is removed (after a fix) the
 // input is produced at its natural rate again and must then pass.
+// (Findings that have been fixed in /repo have no steering any more: their inputs are generated
+// at full rate and are either rejected by validation now or must run without panicking.)
 
 const (
-	vfKeyAdaptorCodec   = "kind=%s site=%s.(*%s).Init panic=%s only support decompress type of gzip"
-	vfKeyRetryNotFound  = "kind=Proxy site=proxy.(*ServerPool).InjectResiliencePolicy panic=retry policy <name> not found"
-	vfKeyCBNotFound     = "kind=Proxy site=proxy.(*ServerPool).InjectResiliencePolicy panic=circuitbreaker policy <name> not found"
-	vfKeyNotRetry       = "kind=Proxy site=proxy.(*ServerPool).InjectResiliencePolicy panic=policy <name> is not a retry policy"
-	vfKeyNotCB          = "kind=Proxy site=proxy.(*ServerPool).InjectResiliencePolicy panic=policy <name> is not a circuitBreaker policy"
-	vfKeyFallback       = "kind=Fallback site=fallback.(*Fallback).Handle panic=interface conversion"
-	vfKeySigner         = "kind=Validator site=signer.(*Signer).Verify panic=access key store must be set before calling Verify"
-	vfKeyOAuthEmpty     = "kind=Validator site=validator.(*OAuth2Validator).Validate.func1 panic=invalid memory address or nil pointer dereference"
-	vfKeyRLZero         = "kind=RateLimiter site=ratelimiter.(*RateLimiter).acquirePermission panic=integer divide by zero"
-	vfKeyTopicIndex     = "kind=TopicMapper site=topicmapper.getTopicMapFunc.func3 panic=index out of range"
 	vfKeyKafkaEmpty     = "kind=Kafka site=kafkabackend.(*Kafka).Init panic=start sarama producer with address [] failed"
 	vfKeyKafkaMQTTEmpty = "kind=KafkaMQTT site=kafka.(*Kafka).setProducer panic=start sarama producer with address [] failed"
-	vfKeyMQTLS          = "kind=MQTTProxy site=mqttproxy.(*MQTTProxy).Init panic=broker start failed"
-	vfKeyMQWhen         = "kind=MQTTProxy site=mqttproxy.getPipelineMap panic=invalid memory address or nil pointer dereference"
-	vfKeyMQType         = "kind=MQTTProxy site=mqttproxy.newBroker panic=create pipeline map failed: packet type not found"
 )
-
-func vfBuilderKey(kind string) string {
-	return "kind=" + kind + " site=builder.(*Builder).reload panic=template does not parse"
-}
 
 func vfAdaptorKeys(kind string) (codec, both, body string) {
 	pkg := strings.ToLower(kind)
@@ -84,78 +69,14 @@ func vfSteerFilter(vf *vfCollector, g *vfG, kind string, tree map[string]interfa
 		if b, _ := tree["body"].(string); b != "" && d != "" && steer(body, "body") {
 			delete(tree, "decompress")
 		}
-	case "RequestBuilder", "ResponseBuilder":
-		if t, ok := tree["template"].(string); ok && t != "" {
-			bad := strings.Contains(t, "nosuchfunc") || strings.Contains(t, "panic") || t == "{{" || tree["leftDelim"] != nil || tree["rightDelim"] != nil
-			if bad && steer(vfBuilderKey(kind), "template") {
-				delete(tree, "leftDelim")
-				delete(tree, "rightDelim")
-				if kind == "RequestBuilder" {
-					tree["template"] = vfTemplates[2]
-				} else {
-					tree["template"] = vfTemplates[1]
-				}
-			}
-		}
-	case "Validator":
-		if sm, ok := tree["signature"].(map[string]interface{}); ok {
-			if ak, _ := sm["accessKeys"].(map[interface{}]interface{}); len(ak) == 0 && steer(vfKeySigner, "accessKeys") {
-				sm["accessKeys"] = map[interface{}]interface{}{"ak1": "secret1"}
-			}
-		}
-		if om, ok := tree["oauth2"].(map[string]interface{}); ok {
-			if om["jwt"] == nil && om["tokenIntrospect"] == nil && steer(vfKeyOAuthEmpty, "oauth2") {
-				om["jwt"] = map[string]interface{}{"algorithm": "HS256", "secret": "6d79736563726574"}
-			}
-		}
-	case "RateLimiter":
-		if ps, ok := tree["policies"].([]interface{}); ok {
-			for _, p := range ps {
-				if pm, ok := p.(map[string]interface{}); ok && pm["limitRefreshPeriod"] == "0s" && steer(vfKeyRLZero, "refresh") {
-					pm["limitRefreshPeriod"] = "1ms"
-				}
-			}
-		}
-	case "TopicMapper":
-		neg := false
-		if v, ok := tree["matchIndex"].(int); ok && v < 0 {
-			neg = true
-		}
-		ps, _ := tree["policies"].([]interface{})
-		for _, p := range ps {
-			if pm, ok := p.(map[string]interface{}); ok {
-				if v, ok := pm["topicIndex"].(int); ok && v < 0 {
-					neg = true
-				}
-				if hs, ok := pm["headers"].(map[interface{}]interface{}); ok {
-					for _, k := range []int{-1} {
-						if _, has := hs[k]; has {
-							neg = true
-						}
-					}
-				}
-			}
-		}
-		if neg && steer(vfKeyTopicIndex, "index") {
-			if v, ok := tree["matchIndex"].(int); ok && v < 0 {
-				tree["matchIndex"] = 0
-			}
-			for _, p := range ps {
-				if pm, ok := p.(map[string]interface{}); ok {
-					if v, ok := pm["topicIndex"].(int); ok && v < 0 {
-						pm["topicIndex"] = 0
-					}
-					if hs, ok := pm["headers"].(map[interface{}]interface{}); ok {
-						delete(hs, -1)
-					}
-				}
-			}
-		}
 	}
 }
 
-// vfSteerPipeline repairs dangling / wrongly typed resilience policy references of Proxy pools.
-func vfSteerPipeline(vf *vfCollector, g *vfG, body map[string]interface{}) {
+// vfFixPolicyRefs is a generator fix-up (not steering): most of the time the retryPolicy /
+// circuitBreakerPolicy names of Proxy pools are made to refer to a policy of the right kind in the
+// pipeline's resilience section (or removed when there is none); otherwise validation, which now
+// resolves these references, would reject most pipelines that contain a Proxy.
+func vfFixPolicyRefs(g *vfG, body map[string]interface{}) {
 	var retry, cb []string
 	if rs, ok := body["resilience"].([]interface{}); ok {
 		for _, r := range rs {
@@ -178,21 +99,17 @@ func vfSteerPipeline(vf *vfCollector, g *vfG, body map[string]interface{}) {
 		}
 		return false
 	}
-	fix := func(pool map[string]interface{}, field string, good, other []string, keyMissing, keyWrong string) {
+	fix := func(pool map[string]interface{}, field string, good []string) {
 		n, _ := pool[field].(string)
 		if n == "" || in(n, good) {
 			return
 		}
-		key := keyMissing
-		if in(n, other) {
-			key = keyWrong
-		}
-		if !vf.HasKnown(key) || !g.chance("steer", field, 85) {
+		if !g.chance("policy-ref", field, 92) {
+			g.bounds[strings.ToLower(field)+":dangling-or-wrong-kind"] = true
 			return
 		}
-		vf.Exclude()
 		if len(good) > 0 {
-			pool[field] = good[0]
+			pool[field] = good[g.intn("policy-ref", field+"-i", 0, len(good)-1)]
 		} else {
 			delete(pool, field)
 		}
@@ -206,8 +123,8 @@ func vfSteerPipeline(vf *vfCollector, g *vfG, body map[string]interface{}) {
 		pools, _ := fm["pools"].([]interface{})
 		for _, p := range pools {
 			if pm, ok := p.(map[string]interface{}); ok {
-				fix(pm, "retryPolicy", retry, cb, vfKeyRetryNotFound, vfKeyNotRetry)
-				fix(pm, "circuitBreakerPolicy", cb, retry, vfKeyCBNotFound, vfKeyNotCB)
+				fix(pm, "retryPolicy", retry)
+				fix(pm, "circuitBreakerPolicy", cb)
 			}
 		}
 	}
